@@ -1,10 +1,10 @@
 SPECIFICATION Spec
 CONSTANTS
-  InnerMtus <- MtuSetQ
+  InnerMtus <- MtuSmall
   Bases <- BaseV
   TopLayers <- AllLayers
   LowLayers <- FewLayers
-  Depth = 2
+  Depth = 1
   SizeCap = 300000
-INVARIANTS Honest
+INVARIANTS Dump
 CHECK_DEADLOCK FALSE
